@@ -303,13 +303,15 @@ def daqmxBufferLengths : List (Nat × Nat) → Nat → List Nat
 def daqmxFinalChunkLengths (objs : List SegObj) (remainder : Nat) : Except Err (List (Bytes × Nat)) := do
   let dims ← bufferDimensions objs
   let lens := daqmxBufferLengths dims remainder
-  pure ((objs.filter (·.hasData)).filterMap fun o =>
+  -- every object gets the number of rows available for all of its scalers
+  (objs.filter (·.hasData)).foldr (fun o acc => do
+    let rest ← acc
     match o.daq with
-    | none => none
+    | none => pure rest
     | some m =>
-      match (m.scalers.map (·.buffer)).eraseDups with
-      | [b] => some (o.path, lens.getD b 0)
-      | _ => none)
+      match m.scalers.map fun sc => lens.getD sc.buffer 0 with
+      | [] => throw .other       -- `min()` of an empty sequence
+      | l :: ls => pure ((o.path, ls.foldl min l) :: rest)) (pure [])
 
 /-- contiguous truncated data: whole objects while bytes remain, then a partial one, then nothing -/
 def contiguousFinalLengths : List SegObj → Nat → List (Bytes × Nat)
@@ -398,6 +400,14 @@ def readLeadIn (bytes : Bytes) (segmentPosition : Nat) (isIndex : Bool) (dataFil
           else .ok (some ⟨toc, version, dataPos, nextPos, false⟩)
         | none => .ok (some ⟨toc, version, dataPos, nextPos, false⟩)
 
+/-- the version field of a lead-in that was long enough to be unpacked (the tag was already checked) -/
+def leadInVersion (bytes : Bytes) : Option Int :=
+  if bytes.length < 28 then none
+  else
+    let toc := decLE ((bytes.drop 4).take 4)
+    let e : Endian := if hasFlag toc kTocBigEndian then .big else .little
+    some (toSigned 4 (dec e ((bytes.drop 8).take 4)))
+
 /-! ## object metadata (`TdmsReader.object_metadata`) -/
 
 structure ObjMeta where
@@ -476,7 +486,11 @@ def readMetadataLoop (file : Bytes) (isIndex : Bool) (dataFileSize : Option Nat)
   | 0, _, _, st => .ok st
   | fuel + 1, filePos, segPos, st => do
     match ← readLeadIn (file.drop filePos) segPos isIndex dataFileSize with
-    | none => pure st
+    | none =>
+      -- `_read_lead_in` records the version before it notices that the metadata is incomplete
+      match leadInVersion (file.drop filePos) with
+      | some v => pure { st with version := some (st.version.getD v), versions := st.versions ++ [v] }
+      | none => pure st
     | some li =>
       let seg : Segment := ⟨segPos, li.toc, li.nextSegmentPos, li.dataPosition, li.incomplete, [], 0, none⟩
       let (seg, props) ← readSegmentObjects seg st.segments.getLast? st.prevObjs (file.drop (filePos + 28))
